@@ -355,6 +355,12 @@ def gen_depth3(rng, n, d2, members):
 
 def run(R):
     rng = R.rng
+    # introspective tie: the model's class-lattice tables vs tables regenerated from the live classes
+    import lattice
+    diffs = lattice.lattice_check(R)
+    if diffs:
+        R.violation('the class lattice of the language modules differs from the tables of the model (coq/Model/Syntax.v): %s' % '; '.join(diffs[:4]),
+                    {'correspondence': 'lattice tables (in_alphabet / isinst / required)', 'differences': diffs}, no_input=True)
     J = Judge(R)
     MB = {}
     T = {}
